@@ -32,7 +32,7 @@ MANIFEST = dict(
          "number and parameter byte — jump, break, IT break, line jump, pattern loop with all nine FLOW_LOOP_* mode bits and QUIRK_FT2BUGS, "
          "pattern delay incl. the ST3 first-wins rule, IT row delay, speed/tempo set with the 0x20 split, QUIRK_NOBPM, XMP_FLAGS_VBLANK, ST3 "
          "effect memory, speed 0 ignored, the time-factor dependent tempo minimum and its byte clamp, XMP_MIN_BPM, ICE speed, ULT tempo, "
-         "global volume; libxmp_process_pattern_loop; the speed pre-scan and delay decision of check_delay; the per-mode call order of "
+         "global volume, the FAR tempo effects with libxmp_far_translate_tempo; libxmp_process_pattern_loop; the speed pre-scan and delay decision of check_delay; the per-mode call order of "
          "libxmp_read_event; the row-delay gate of read_row; the IT tempo slide tick), of the tick-size arithmetic and of the voice tables of "
          "virtual.c. For ALL modules satisfying the monitored well-formedness predicate and ALL call histories (any arguments): every "
          "successful frame reports 0<=pos<len, pattern=xxo[pos]<pat, 0<=row<rows(pattern), speed 1..255, bpm>0, frame time>0 computed from "
@@ -43,7 +43,7 @@ MANIFEST = dict(
          "C16_inv_frame_fx, C16_inv_frame_fx_total, C16_reachable_fx, C16_reachable_fx_info; C16_fx_env_ok: the only module requirement, "
          "a non-zero byte tempo minimum, holds for the code as generated; C16_fx_writer_sites: every assignment to a kernel-read "
          "effect-owned variable in src/*.c sits in a modelled function; C16_fx_unclamped_counterexample: tempo 0 without the clamp = the "
-         "repaired finding bpm:min_bpm_clamp). xmp_play_buffer calls (any loop limit, any size, continuing after -XMP_END) play zero or "
+         "repaired finding bpm:min_bpm_clamp; C16_far_tempo_range: FAR tempo effects give speed 4..37 and tempo >= XMP_MIN_BPM in every tempo state, negative tempos included; C16_loop_jump_lands_in_pattern: next_row ends inside the pattern for EVERY loop target, e.g. one carried over from a longer pattern). xmp_play_buffer calls (any loop limit, any size, continuing after -XMP_END) play zero or "
          "more frames and nothing else: every state they pass through satisfies the invariant and the loop counter never decreases across "
          "them (C16_play_buffer, C16_reachable_api, C16_loop_monotone_api). For modules that also satisfy the monitored order-list clause "
          "OrdWF the order-skipping loop of next_order terminates within len+1 iterations (C16_next_order_terminates), every xmp_play_frame "
@@ -58,12 +58,14 @@ MANIFEST = dict(
          "virtual.c call; Fx.processFx against sampled real libxmp_process_fx calls (--wrap hook: corpus modules, synthetic modules, injected "
          "and delayed events) and Fx.readRow + ST2.6 step against the first tick of a row of a real module for every effect number x "
          "parameter x lane under random set-up rows, partner effects and 10 (quick) / 24 (thorough) configurations of player mode, quirks, "
-         "flow mode, flags and time factor, incl. the two time factors where the tempo minimum leaves the byte range; Fx.tempoSlideStep "
+         "flow mode, flags and time factor, incl. the two time factors where the tempo minimum leaves the byte range and modules with FAR extras; a third of the synthetic modules carry a pattern-loop start beyond the end of the next pattern; Fx.tempoSlideStep "
          "against the following tick; constants, the min_bpm clamp and the writer-site list regenerated from the sources; plus a direct "
          "oracle on xmp_frame_info that yields replayable failing inputs.",
-    note="Still abstract / monitored: (1) effect numbers 0x68 (FX_FAR_TEMPO) and 0x69 (FX_FAR_F_TEMPO) in a module that carries FAR extras "
-         "(libxmp_far_update_tempo writes p->speed/p->bpm): they enter as Prim.raw constrained by EffectRange, which the harness monitors on "
-         "every real frame; every other effect number 0x00..0xff is modelled (all but the 17 flow effects leave the modelled variables "
+    note="Still abstract / monitored: (1) NO effect number remains abstract: all of 0x00..0xff are modelled, incl. FX_FAR_TEMPO 0x68 / "
+         "FX_FAR_F_TEMPO 0x69 in modules with FAR extras (Fx.farTranslate = libxmp_far_translate_tempo with the fine-tempo clamping, both "
+         "tempo modes, the unsigned divisor loop for negative tempos and the XMP_MIN_BPM clamp; C16_far_tempo_range; swept in fxall "
+         "configurations 2000+ over the accumulated coarse/fine state); Prim.raw is kept as an unused escape. All but the 19 flow/tempo "
+         "effects leave the modelled variables "
          "alone, which the exhaustive fxrow correspondence checks). (2) WHICH writes an effect stage performs is exact for read_row on the "
          "first tick of a row (Fx.readRow, tied) incl. the same-tick read of a one-tick delayed event; for the rest of stage B (inject_event, "
          "events delayed by >= 2 ticks, tempo/global-volume slides of play_channel in their real order) the theorems quantify over ALL "
@@ -89,6 +91,7 @@ REQUIRED = [
     "Xmp.Seq.C16_loop_monotone_run", "Xmp.Seq.C16_inv_control", "Xmp.Seq.C16_reachable", "Xmp.Seq.C16_reachable_info",
     "Xmp.Seq.C16_next_order_terminates", "Xmp.Seq.C16_frame_returns", "Xmp.Seq.C16_inv_frame_total",
     "Xmp.Seq.C16_reachable_total", "Xmp.Seq.C16_reachable_info_total",
+    "Xmp.Seq.C16_loop_jump_lands_in_pattern", "Xmp.Fx.C16_far_tempo_range",
     "Xmp.Seq.C16_play_buffer", "Xmp.Seq.C16_reachable_api", "Xmp.Seq.C16_loop_monotone_api",
     "Xmp.Fx.C16_fx_env_ok", "Xmp.Fx.C16_fx_writer_sites", "Xmp.Fx.C16_fx_range", "Xmp.Fx.C16_fx_range_call", "Xmp.Fx.C16_fx_range_row",
     "Xmp.Fx.C16_frame_fx_refines", "Xmp.Fx.C16_inv_frame_fx", "Xmp.Fx.C16_inv_frame_fx_total", "Xmp.Fx.C16_reachable_fx",
@@ -218,9 +221,8 @@ def compare_case(ck, case, model_lines, stats, rp):
             ok = wild_eq(et, mt)
             fxt = d.split("|")[1].split()[4]
             FXT_SEEN[int(fxt)] = FXT_SEEN.get(int(fxt), 0) + 1
-            if mt[:2] == ["x", "unmodelled"]:
-                stats["fx_unmodelled_far_tempo"] += 1
-                ok = True
+            if int(fxt) in (0x68, 0x69) and d.split("|")[0].split()[-1] == "1":
+                stats["fx_far_tempo_calls_compared"] += 1
         elif kind == "fxrow":
             ok = wild_eq(et, mt)
             c["fxrows"] += 1
@@ -276,6 +278,12 @@ def run(ck):
         shards.append((exe, ["fxall", str(seed), str(i * fx_cfgs), str(fx_cfgs), str(fx_thorough)]))
     # time factors at which the tempo minimum of label fx_s3m_bpm leaves the byte range (flow effects only)
     shards.append((exe, ["fxall", str(seed), "1000", "2", "0"]))
+    # modules with FAR extras: FX_FAR_TEMPO / FX_FAR_F_TEMPO sweep over the accumulated coarse / fine tempo state
+    if quick:
+        shards.append((exe, ["fxall", str(seed), str(2000 + seed % 16), "2", "0"]))
+    else:
+        for j in range(8):
+            shards.append((exe, ["fxall", str(seed), str(2000 + 2 * j), "2", "1"]))   # all 16 initial coarse tempos, every effect x parameter
     results = vlib.pmap(run_shard, shards)
 
     from collections import defaultdict
@@ -363,7 +371,7 @@ def run(ck):
     ck.assumptions += [
         "EffectRange: after every frame pbreak in {0,1}, jump in [-1,255], jumpline/delay/rowdelay >= 0, speed in 1..255, bpm >= 1, "
         "st26_speed 0 or two non-zero bytes — monitored on every real frame (harness 'A effrange'); hypothesis of the C16_reachable family and, "
-        "in the C16_*_fx family, of the unmodelled FAR tempo writes (Prim.raw) only",
+        "not needed by the C16_*_fx family (every effect incl. the FAR tempo effects is modelled; Prim.raw is unused)",
         "EnvOk: the tempo minimum of label fx_s3m_bpm is a non-zero byte — proved for the code as generated (C16_fx_env_ok, "
         "CLAMP(min_bpm, 1, 255) extracted from src/effects.c on every run); the two time factors where it failed before /repo 694de7b are "
         "played in every run (fxall configurations 1000/1001)",
